@@ -28,6 +28,7 @@ type Client struct {
 	WU       uint32        `json:"wu"`       // 0: no WINDOW_UPDATE in the preamble
 	Prio     bool          `json:"prio"`     // PRIORITY frame in the preamble
 	AltSpec  hellogen.Spec `json:"alt_spec"` // hello used after a reconnect
+	SameAddr bool          `json:"same_addr"` // a reconnect comes from the same ip:port as the connection it replaces
 }
 
 type Step struct {
@@ -72,6 +73,7 @@ func gen(t *rapid.T) Script {
 			c.WU = uint32(100000 + i*1111)
 		}
 		c.Prio = rapid.Bool().Draw(t, "prio")
+		c.SameAddr = rapid.Bool().Draw(t, "sameaddr")
 		s.Clients = append(s.Clients, c)
 	}
 	connected := make([]bool, n)
@@ -117,6 +119,7 @@ func exec(t *testing.T, s Script) *vstat.Violation {
 	var reqs []*rig.Recorded
 	var failures []string
 	overlap := false
+	sameAddr := false
 	protos := map[string]bool{}
 	msg := rig.Bubble(t, func() {
 		p := rig.StartProxy(rig.ProxyOpts{IdleTimeout: 10 * time.Minute, TLSHandshakeTimeout: 10 * time.Second})
@@ -137,7 +140,18 @@ func exec(t *testing.T, s Script) *vstat.Violation {
 				if cs.connNo > 0 {
 					spec = cl.AltSpec // a reconnect presents a different hello
 				}
-				raw, _, err := p.Ln.Dial(rig.DialOpts{Remote: &net.TCPAddr{IP: net.ParseIP(cl.PeerIP), Port: 30000 + st.Client*10 + cs.connNo}})
+				port := 30000 + st.Client*10 + cs.connNo
+				if cl.SameAddr {
+					// the peer address identifies no connection: a client may come back from the very ip:port an
+					// earlier, finished connection of its had (port reuse, NAT)
+					port = 30000 + st.Client*10
+					if cs.connNo > 0 {
+						mu.Lock()
+						sameAddr = true
+						mu.Unlock()
+					}
+				}
+				raw, _, err := p.Ln.Dial(rig.DialOpts{Remote: &net.TCPAddr{IP: net.ParseIP(cl.PeerIP), Port: port}})
 				if err != nil {
 					cs.failure = err.Error()
 					return
@@ -336,6 +350,9 @@ func exec(t *testing.T, s Script) *vstat.Violation {
 	if reconnect {
 		cl = append(cl, "reconnect-with-different-hello")
 	}
+	if reconnect && sameAddr {
+		cl = append(cl, "reconnect-from-the-same-ip:port")
+	}
 	nt := overlap && protos["h2"] && (protos["http/1.1"] || protos[""])
 	col.Case(fmt.Sprintf("%+v", s), nt, map[string]any{"clients": len(s.Clients), "steps": len(s.Steps), "free": s.Free, "requests": len(reqs), "classes": cl}, cl...)
 	return nil
@@ -343,6 +360,6 @@ func exec(t *testing.T, s Script) *vstat.Violation {
 
 func TestAttribution(t *testing.T) {
 	rig.Certs()
-	col.Mandatory("free-running:true", "free-running:false", "overlapping-lifetimes", "proto:h2", "proto:http/1.1", "reconnect-with-different-hello")
+	col.Mandatory("free-running:true", "free-running:false", "overlapping-lifetimes", "proto:h2", "proto:http/1.1", "reconnect-with-different-hello", "reconnect-from-the-same-ip:port")
 	vstat.Run(t, vstat.Spec[Script]{Col: col, Quick: 400, Thorough: 10000, Gen: gen, ScheduleDependent: true, Exec: func(s Script) *vstat.Violation { return exec(t, s) }})
 }
